@@ -442,6 +442,17 @@ func (s *Sim) opCloseQuery(op *Op) {
 		}
 		oq = done[abs(op.Q)%len(done)]
 		s.C.Faults["close_again"]++
+		if op.Q%2 == 1 && s.lockDepth < 63 {
+			// a caller that calls Next once more on the finished query (it panics, or returns
+			// false) and then closes it: the locks of the other open queries must not be touched
+			s.C.Faults["next_again"]++
+			var again bool
+			s.call(func() { again = oq.Q.Next() })
+			if again {
+				s.violate("C07", "lock.release", "next_again", true, "Next on a finished or closed query returned true: the query came back to life (IsLocked=%v, %d queries open)", s.W.IsLocked(), s.lockDepth)
+				return
+			}
+		}
 		p, val := s.call(func() { oq.Q.Close() })
 		if p {
 			s.violate("C07", "lock.release", "close_again", true, "closing a finished/closed query again panicked: %v", val)
